@@ -449,6 +449,16 @@ impl Sup {
         if ready.len() == 1 {
             return ready[0];
         }
+        // only genuine choice points are recorded / consumed, so a recorded list replays under `explicit`
+        let i = self.pick_inner(ready);
+        if self.sched_rec.len() < 200_000 {
+            let lid = self.ths[i].lid;
+            self.sched_rec.push(lid);
+        }
+        i
+    }
+
+    fn pick_inner(&mut self, ready: &[usize]) -> usize {
         // starvation filter
         let mut cand: Vec<usize> = ready.to_vec();
         if !self.cfg.sched.starve.is_empty() {
@@ -556,9 +566,6 @@ impl Sup {
             let i = self.pick(&ready);
             self.steps += 1;
             let lid = self.ths[i].lid;
-            if self.sched_rec.len() < 200_000 {
-                self.sched_rec.push(lid);
-            }
             if lid != self.last_lid {
                 self.switches += 1;
                 self.last_lid = lid;
